@@ -379,6 +379,9 @@ def project(doc, D):
     for st in e.iter_animation_steps():
       if uses_px(st.value):
         has_px = 1
+  for _p, v in doc.iter_initial_values():
+    if uses_px(v):
+      has_px = 1
   out = {"lang": doc.get_lang(), "cell": [cell.columns, cell.rows], "px": [px.width, px.height], "has_px": has_px,
          "aa": [] if aa is None else ["%g" % (x * 100) for x in (aa.left_offset, aa.top_offset, aa.width, aa.height)],
          "dar": "" if doc.get_display_aspect_ratio() is None else "%d/%d" % (doc.get_display_aspect_ratio().numerator, doc.get_display_aspect_ratio().denominator),
